@@ -127,8 +127,10 @@ func drawItem(rt *rapid.T, idx int, used map[string]bool) *Item {
 		case "symlink":
 			n.Kind = "symlink"
 			n.Target = "${OUT}/file-" + rapid.SampledFrom([]string{"old", "young"}).Draw(rt, label+".target")
+			n.LinkAge = rapid.SampledFrom([]int64{0, 0, 30 * 24 * 3600, 90 * 24 * 3600}).Draw(rt, label+".link_age")
 		case "dangling":
 			n.Kind, n.Target = "symlink", "${OUT}/missing"
+			n.LinkAge = rapid.SampledFrom([]int64{0, 0, 30 * 24 * 3600}).Draw(rt, label+".link_age")
 		case "empty-dir", "nonempty-dir":
 			n.Kind = "dir"
 			n.MAge = drawAge(rt, label+".mtime", 7)
@@ -156,8 +158,10 @@ func drawItem(rt *rapid.T, idx int, used map[string]bool) *Item {
 		case "symlink":
 			n.Kind = "symlink"
 			n.Target = "${OUT}/dir-" + rapid.SampledFrom([]string{"old", "young"}).Draw(rt, label+".target")
+			n.LinkAge = rapid.SampledFrom([]int64{0, 0, 30 * 24 * 3600, 90 * 24 * 3600}).Draw(rt, label+".link_age")
 		case "dangling":
 			n.Kind, n.Target = "symlink", "${OUT}/missing"
+			n.LinkAge = rapid.SampledFrom([]int64{0, 0, 30 * 24 * 3600}).Draw(rt, label+".link_age")
 		}
 	default:
 		it.Area = rapid.SampledFrom([]string{"sessions", "archives", "daemon", "forwarding", "stray"}).Draw(rt, label+".other")
@@ -330,7 +334,7 @@ func TestPopulations(t *testing.T) {
 		t.Skip("replaying")
 	}
 	rec := ev.New(t, prop, "random-populations",
-		"rapid: 1..10 items over agents/caches/staging/other areas of a private data directory: agent installations (binary atime and mtime drawn independently around 30 d), caches and staging roots (mtime around 7 d; offsets 11 s..60 d, band +-10 s without verdict, future stamps), nested contents, symlinks to an outside canary tree (old and young targets), dangling links, non-directories in unexpected places, old files in unrelated areas; oracle from the statement's thresholds and the instants measured around the call. Non-trivial: the population holds at least one item that must go and one that must stay")
+		"rapid: 1..10 items over agents/caches/staging/other areas of a private data directory: agent installations (binary atime and mtime drawn independently around 30 d), caches and staging roots (mtime around 7 d; offsets 11 s..60 d, band +-10 s without verdict, future stamps), nested contents, symlinks to an outside canary tree (old and young targets; the links themselves brand new or 30-90 days old), dangling links, non-directories in unexpected places, old files in unrelated areas; oracle from the statement's thresholds and the instants measured around the call. Non-trivial: the population holds at least one item that must go and one that must stay")
 	base := t.TempDir()
 	ev.Check(t, rec, 1000, 8000, func(rt *rapid.T) {
 		c := drawCase(rt)
